@@ -440,6 +440,12 @@ def run_item(ctx, item):
                 e.remove(nte)
             e.add(S.Rest(id="er", voice=1), 0, e.measures[0].end.t)
             parts.insert(rng.randrange(len(parts) + 1), e)
+            if rng.random() < 0.25:
+                # none of the parts has a note (a score of tacet parts): the union of empty tables is the empty table
+                for p_ in parts:
+                    for nte in list(p_.notes):
+                        p_.remove(nte)
+                ctx.extra["scores_without_any_note"] += 1
         sc = S.Score(parts, id="s")
         unique = rng.random() < 0.7
         opts = {o: rng.random() < 0.4 for o in OPTS[:6]}
